@@ -185,10 +185,6 @@ func (hn *harness) endHold(g *group, mb member, verbose bool) error {
 		return nil
 	}
 	runs := in.runsExcept(skip)
-	if len(runs) != 1 || runs[0].last() == nil {
-		return fail("the run is in its end-of-run phase and its history holds no status line: %v", runs)
-	}
-	id8 := runs[0].ID8
 	// which of the life-cycle events lie before the held call (from this execution's own trace)
 	before := map[string]int{}
 	for _, c := range tr.Calls[:mb.K-1] {
@@ -196,6 +192,19 @@ func (hn *harness) endHold(g *group, mb member, verbose bool) error {
 			before[in.lay.desc(c)]++
 		}
 	}
+	if len(runs) != 1 || runs[0].last() == nil {
+		if before["write(history)"] > 0 {
+			// this run has written status lines (its own trace says so) and, while it is still alive, none of them
+			// is on disk any more: whatever is reported for the DAG now is not this run's state
+			res.Violate("C08/end-of-run/recorded-status-vanished/at="+desc, fmt.Sprintf("DAG %s (%s), the agent held at the entry of its relevant call K=%d [%s] in its end-of-run phase: the run has written %d status record(s), yet its history now holds no status line (%v) — the run's recorded status exists nowhere on disk while the process is still alive", def.Name, def.About, mb.K, in.lay.short(held), before["write(history)"], runs), mb)
+			if _, err := finishRun(); err != nil {
+				return fail("%v", err)
+			}
+			return nil
+		}
+		return fail("the run is in its end-of-run phase and its history holds no status line: %v", runs)
+	}
+	id8 := runs[0].ID8
 	finalBefore := isFinal(runs[0].last())
 	hadOriginal := false
 	for _, f := range runs[0].Files {
